@@ -428,6 +428,37 @@ func c19Equals(c *Ctx, infos []mappingInfo) {
 					x, y := t.Args[0], t.Args[1]
 					return x.Op == "field" && y.Op == "field" && x.Sym == fld && y.Sym == fld && (x.Args[0].isParam(0) && y.Args[0].Op == "extract" || y.Args[0].isParam(0) && x.Args[0].Op == "extract")
 				}
+				// difference form: x − y == 0 holds exactly when x and y are equal AND finite (Inf − Inf and anything
+				// with NaN give NaN) — under it for both parameters the tolerance test holds, so `true` is the answer
+				diffZero := func(t *Term, fld string) bool {
+					if !t.isBin("==") {
+						return false
+					}
+					d := t.Args[0]
+					if d.isConst("0") {
+						d = t.Args[1]
+					} else if !t.Args[1].isConst("0") {
+						return false
+					}
+					if !d.isBin("-") {
+						return false
+					}
+					x, y := d.Args[0], d.Args[1]
+					return x.Op == "field" && y.Op == "field" && x.Sym == fld && y.Sym == fld && (x.Args[0].isParam(0) && y.Args[0].Op == "extract" || y.Args[0].isParam(0) && x.Args[0].Op == "extract")
+				}
+				gD, oD := false, false
+				for _, cd := range p.Conds {
+					if cd.Taken && diffZero(cd.Term, mi.gammaF) {
+						gD = true
+					}
+					if cd.Taken && diffZero(cd.Term, mi.offsetF) {
+						oD = true
+					}
+				}
+				if gD && oD {
+					c.R.check(r.isConst("true"), rule, key, shortFn(f), c.fpos(f), "difference fast path: parameters whose differences are exactly 0 are equal and finite, hence within tolerance", describeRet(p))
+					continue
+				}
 				gEq, oEq := false, false
 				for _, cd := range p.Conds {
 					if cd.Taken && eqParam(cd.Term, mi.gammaF) {
@@ -882,12 +913,12 @@ func runC03(c *Ctx) {
 		c03Interpolation(c, mi, k1)
 		// RelativeAccuracy from gamma only
 		if f := c.P.DeclaredMethod(mi.t, "RelativeAccuracy"); c.mustFunc("C03-D3", f, name+".RelativeAccuracy") {
-			ps, _ := exec(c, f, nil, 1)
-			ok := len(ps) == 1
-			if ok {
+			rts := c03AccuracyTerms(c, mi)
+			ok := len(rts) >= 1
+			for _, rt := range rts {
 				only := true
 				uses := false
-				ps[0].RetT[0].walk(func(x *Term) bool {
+				rt.walk(func(x *Term) bool {
 					if x.Op == "field" {
 						if x.Sym == mi.gammaF {
 							uses = true
@@ -897,7 +928,9 @@ func runC03(c *Ctx) {
 					}
 					return true
 				})
-				ok = only && uses
+				if !(only && uses) || rt.Key() != rts[0].Key() {
+					ok = false
+				}
 			}
 			c.R.check(ok, "C03-D3", name+".RelativeAccuracy/from-gamma", shortFn(f), c.fpos(f), "the reported accuracy is a function of the stored gamma only", "")
 		}
@@ -948,9 +981,17 @@ func c03AccuracyInverse(c *Ctx, mi mappingInfo) float64 {
 	f, okF := 0.0, false
 	found := ""
 	if ra := c.P.DeclaredMethod(mi.t, "RelativeAccuracy"); ra != nil {
-		rp, _ := exec(c, ra, nil, 1)
-		if len(rp) == 1 {
-			r := rp[0].RetT[0]
+		rts := c03AccuracyTerms(c, mi)
+		same := len(rts) >= 1
+		for _, rt := range rts {
+			if rt.Key() != rts[0].Key() {
+				same = false
+				found = "paths disagree: " + rt.Key() + " / " + rts[0].Key()
+			}
+		}
+		_ = ra
+		if same {
+			r := rts[0]
 			found = r.Key()
 			// 1 − 2/(1+E)
 			if r.isBin("-") && r.Args[0].isConst("1") && r.Args[1].isBin("/") && r.Args[1].Args[0].isConst("2") && r.Args[1].Args[1].isBin("+") {
@@ -1123,4 +1164,74 @@ func c03Interpolation(c *Ctx, mi mappingInfo, k1 float64) {
 		sort.Strings(missing)
 		c.R.check(len(missing) == 0, rule, name+"/inverse-constants", shortFn(inv), c.fpos(inv), "the inverse (Cardano) uses the constants derived from the forward polynomial's A, B, C", firstNonEmpty(strings.Join(missing, " "), "all present"))
 	}
+}
+
+// rewriteTerm rebuilds t bottom-up, replacing every sub-term for which fn returns a non-nil term.
+func rewriteTerm(t *Term, fn func(*Term) *Term) *Term {
+	if t == nil {
+		return nil
+	}
+	if r := fn(t); r != nil {
+		return r
+	}
+	if len(t.Args) == 0 || t.Op == "phi" {
+		return t
+	}
+	args := make([]*Term, len(t.Args))
+	changed := false
+	for i, a := range t.Args {
+		args[i] = rewriteTerm(a, fn)
+		if args[i] != a {
+			changed = true
+		}
+	}
+	if !changed {
+		return t
+	}
+	return mk(t.Op, t.Sym, t.V, args...)
+}
+
+// c03AccuracyTerms: what RelativeAccuracy() returns on each of its paths, with every read of a field other than
+// gamma / offset replaced by what the gamma constructor stores into that field (its parameters standing for the
+// gamma and offset fields): a mapping is immutable, so a value precomputed at construction IS that expression.
+// A path guarded by a field the constructor sets to a constant (a "has been precomputed" flag) and taken the other
+// way belongs to zero-value structs only; it is resolved like any other.
+func c03AccuracyTerms(c *Ctx, mi mappingInfo) []*Term {
+	f := c.P.DeclaredMethod(mi.t, "RelativeAccuracy")
+	if f == nil {
+		return nil
+	}
+	recvFld := func(fld string) *Term { return mk("field", fld, nil, mk("param", "0", nil)) }
+	var resolve func(t *Term, depth int) *Term
+	resolve = func(t *Term, depth int) *Term {
+		return rewriteTerm(t, func(x *Term) *Term {
+			x0 := x.unver()
+			if x0.Op == "field" && len(x0.Args) == 1 && x0.Args[0].isParam(0) && x0.Sym != mi.gammaF && x0.Sym != mi.offsetF && depth < 3 {
+				if def := mi.ctorVals[x0.Sym]; def != nil {
+					d := rewriteTerm(def, func(y *Term) *Term {
+						switch {
+						case y.isParam(0):
+							return recvFld(mi.gammaF)
+						case y.isParam(1):
+							return recvFld(mi.offsetF)
+						}
+						return nil
+					})
+					return resolve(d, depth+1)
+				}
+			}
+			if x0 != x {
+				return x0
+			}
+			return nil
+		})
+	}
+	ps, _ := exec(c, f, nil, 1)
+	var out []*Term
+	for _, p := range ps {
+		if len(p.RetT) == 1 {
+			out = append(out, resolve(p.RetT[0], 0))
+		}
+	}
+	return out
 }
